@@ -436,6 +436,23 @@ def run(db: DB, rep: Report) -> None:
                   "instead of 8" % (slot, why))
     if n_l14 < 1:
         raise AnalysisError("LevelParser.parse(<tree>[...]) not found in Architecture.__init__")
+    # ... and the dictionary that is rewritten is the parser's own copy, not the caller's: a second
+    # Architecture built from the same loaded dictionary must see the names as they were written
+    stores = [n for n in walk_no_nested(ai.node) if isinstance(n, ast.Assign) and
+              any(isinstance(t, ast.Subscript) for t in n.targets)]
+    keeps = [n for n in walk_no_nested(ai.node) if isinstance(n, ast.Assign) and len(n.targets) == 1 and
+             norm(n.targets[0]) == "self.yaml" and not (isinstance(n.value, ast.Constant) and n.value.value is None)]
+    if stores and keeps:
+        v = keeps[-1].value
+        fresh = isinstance(v, ast.Call) and norm(v.func) in ("deepcopy", "copy.deepcopy") and v.args and \
+            isinstance(v.args[0], ast.Name) and v.args[0].id in ai.call_params
+        bare = isinstance(v, ast.Name) and v.id in ai.call_params
+        rep.check("L14", fresh, db.loc(keeps[-1]), ai.short, "private-copy:self.yaml",
+                  "the dictionary whose names are rewritten is a deep copy of the caller's",
+                  "Architecture.__init__ rewrites level names (%d in-place stores) in the very dictionary the "
+                  "caller handed in (%s): a second Architecture built from the same loaded dictionary parses "
+                  "the rewritten names - every 'PE[0..7]' has become 'PE' with one instance" %
+                  (len(stores), norm(keeps[-1])), decided=fresh or bare)
 
     # ---- L13: whitespace between tokens is insignificant everywhere ----------------------
     rep.rule("L13", "every grammar ignores inline whitespace and defines no multi-part terminal", 5)
@@ -846,6 +863,8 @@ def mutants(db: DB):
     eq, pt, st, lv = ("teaal/parse/equation.py", "teaal/parse/partitioning.py",
                       "teaal/parse/spacetime.py", "teaal/parse/level.py")
     return [
+        M("revert F9 fix (the caller's dictionary is rewritten)", "teaal/parse/arch.py",
+          "        self.yaml = deepcopy(yaml)", "        self.yaml = yaml", "L14"),
         M("revert F7 fix (aliased level parsed twice)", "teaal/parse/arch.py",
           "                if id(tree) in parsed:\n                    continue\n                parsed.add(id(tree))\n", "", "L14"),
         M("one shared YAML loader", "teaal/parse/yaml.py",
